@@ -87,6 +87,7 @@ func Run(repo, out string) (Facts, []string) {
 	g.peg()
 	g.templates()
 	g.report()
+	g.pipeline()
 	keys := make([]string, 0, len(g.facts))
 	for k := range g.facts {
 		keys = append(keys, k)
